@@ -6,9 +6,11 @@ builder's tasks/edges/static inputs are compared with a reference model (tasks i
 + edge set); every state with exactly one sink is executed with execute_workflow (threaded
 dask dispatcher) under a controlled executor that lets the explorer choose which outstanding
 task completes next - all completion orders for small DAGs, bounded deviations for larger
-ones - plus once with one worker and once on a free-running real thread pool.  The returned
-term (task functions f_k(*args) = (k, args)) and the call log are compared with a sequential
-topological evaluation of the model.
+ones - plus once with one worker, once on a free-running real thread pool and once through
+optimize.py (scatter + fuse, fake client) with a synchronous dask get.  The returned term (task
+functions f_k(*args) = (k, args)) and the call log are compared with a sequential topological
+evaluation of the model.  A small second family enumerates static input *values* (22 values x
+plain/context-first x source/sink position): the task must receive the value unchanged.
 """
 from __future__ import annotations
 
@@ -33,7 +35,9 @@ LEVEL_NOTE = (
     "trusted: vlib/c17_ref.py (reference model, op interpreter, parked executor) and dask's scheduler loop "
     "dask.local.get_async as the place where completion order is decided; the controlled executor runs jobs "
     "synchronously at the moment they complete, so only completion order (not overlap) is explored; the real "
-    "thread pool is run once per workflow; the distributed dispatcher (LocalCluster, call_workflow) is not executed"
+    "thread pool is run once per workflow; the distributed dispatcher (LocalCluster, call_workflow) is not executed: "
+    "its graph transformation optimize_task_graph_for_dask_distributed is run with a client whose scatter returns "
+    "the value and the resulting graph is evaluated with dask's synchronous get"
 )
 RULE = (
     "all sequences of builder operations up to the plan's length over {add_task(kind, preds), replace_task, "
@@ -41,7 +45,8 @@ RULE = (
     "plain+static input, context-first, context-first+static input}, preds = None | bare task | ordered list of "
     "<= 2 (<= 3 in plan add3) distinct existing tasks; state = operation sequence, transition = one operation; "
     "a case is non-trivial when the workflow has one sink and at least one execution was compared with the "
-    "reference evaluation; the bare-task form is checked as a transition and merged with the one-element-list form"
+    "reference evaluation; the bare-task form is checked as a transition and merged with the one-element-list form; "
+    "static value family: every value of the menu as static input of the source / the sink of a 2-task chain"
 )
 ASSUMPTIONS = [
     "task functions are pure and total: f_k(*args) = (k, args) plus a call-log append",
@@ -50,6 +55,8 @@ ASSUMPTIONS = [
     "predecessor arguments of add_task/insert_workflow are existing, distinct tasks; menu workflows use fresh tasks",
     "a refused insert_workflow (N:M, ValueError) ends the sequence; executing a workflow with != 1 sink must refuse "
     "with ValueError (counted, nothing else demanded)",
+    "static inputs of the execution families are strings 's<k>' (never equal to a dask key); other value shapes "
+    "are covered by the static value family only",
     "completion orders are explored at the dask scheduler loop (dask.local.queue_get); dask itself is trusted to "
     "hand a finished task's value to its dependents",
 ]
